@@ -275,10 +275,17 @@ func runHistory(c *run.Ctx, h []attempt, cc configCase, pending int) {
 			w.Mu.Lock()
 			cur = -1
 			w.Mu.Unlock()
+			// a read loop that sits between invocations needs a grant to notice the
+			// loss; one inside ReadSlices comes back by itself (a grant given after it
+			// came back would start the next attempt behind the script's back)
+			pausedBefore := false
+			w.WaitUntil(time.Millisecond, func() bool { pausedBefore = !w.ReaderParked0(); return true })
 			if cn := w.CurConn(); cn != nil {
 				cn.EndInbound(-1, io.EOF)
 			}
-			d.GrantIfPaused()
+			if pausedBefore {
+				d.GrantIfPaused()
+			}
 			if !w.WaitUntil(sim.StepTimeout, func() bool { return d.ReadCount() > n0 }) {
 				stuck("connection loss")
 				return
@@ -300,7 +307,7 @@ func runHistory(c *run.Ctx, h []attempt, cc configCase, pending int) {
 			// ReadSlices had returned; a read loop that does not get to its pause is
 			// starved, not wedged (the grant went out regardless, so the condition
 			// can not be looked at again)
-			c.Inconclusive("read loop slow to pause between attempts")
+			c.Inconclusive("read loop slow to pause between attempts: " + strings.Join(w.TraceTail(40), " | "))
 			c.Spoiled()
 			return
 		}
